@@ -965,6 +965,7 @@ func cacheViewFromFile(
 			}
 			return
 		}
+		verifPoint("load.done", fileInfo.Path)
 		view.FileInfo.ForUpdate = forUpdate
 		scope.Tx.CachedViews.Set(view)
 	}
